@@ -63,6 +63,35 @@ CHECKS = {
         note="Trusted: TLC, the syntactic design renderer, pysim as executor. Input/control/reset changes never coincide "
              "with a clock edge in one testbench write (a testbench race in pysim). Memory ports under wrappers are not "
              "in this design family."),
+    "C14": dict(
+        category="model_checking", design_ref="DESIGN.md section 4 (C14)",
+        technique="TLA+ builder specification of signature trees (Wiring) with Flip/Flatten/Compliant/ConnectOutcome "
+                  "operators and theorems as invariants; every closed state replayed on amaranth.lib.wiring (flip, "
+                  "flatten, compliance, connect in all argument orders with pysim data-flow, corruptions, metadata)",
+        text="TLC enumerates every signature tree within the bounds (nested, array dimensions, In/Out at each level, "
+             "flipped sub-signatures) as reachable states of the builder, proves FlipFlip, FlipReverses, EachLeafOnce, "
+             "CreatedComplies, PermInvariant and ConnectSound on each and dumps the expected observations. Each closed "
+             "state is replayed on the real library: flip equality, create/is_compliant, flatten as multiset with "
+             "effective directions, sub-interface access through plain and flipped objects, connect() on 6 interface "
+             "tuples in every argument order (error class, emitted statements, one-leaf-at-a-time toggling in pysim), "
+             "all single-point corruptions, and Component metadata validated with jschon.",
+        note="Trusted: TLC, the tree-to-Signature renderer, pysim, jschon. Flatten order and error messages are not "
+             "compared; no-connection outcomes are treated as unspecified; metadata checked on a deterministic subset of "
+             "the large configurations."),
+    "C15": dict(
+        category="model_checking", design_ref="DESIGN.md section 4 (C15)",
+        technique="TLA+ builder specification of layouts (DataLayout): reachable states are layout trees carrying their "
+                  "expected tables, theorems are invariants, seeded mutants must fail; the state dump is replayed against "
+                  "amaranth.lib.data / lib.enum (constants, views in pysim, assignments, RTLIL elaboration)",
+        text="TLC enumerates every struct/union/array/flexible layout tree of a bounded family (depth <= 2, <= 3 fields over "
+             "unsigned/signed/Enum/Flag/signed-Enum leaves, <= 8 bits quick / 10 thorough) plus TLC-tabulated random trees "
+             "to depth 4 and 9 Enum/Flag classes, checking placement, Pack/Unpack, read-back, nested-slice, assignment-frame "
+             "and flag-operator theorems for all bit patterns. Every state's table is compared literally with the real "
+             "classes: size/offset/width/shape, from_bits/as_bits/const round trips, Const field reads, data.Struct/Union "
+             "classes, Signal(layout) views in pysim for all fields x all patterns, assignment through fields in comb, "
+             "sync and ctx.set, dynamic array index, FlagView operators three-way with Python's enum.Flag.",
+        note="Trusted: TLC, the TLA value parser, pysim as executor, Python's enum as third witness. Exhaustive only inside "
+             "the bounded family; synthesis is only shown to elaborate (RTLIL semantics belong to C04)."),
     "C16": dict(
         category="model_checking", design_ref="DESIGN.md section 4 (C16)",
         technique="bit-serial TLA+ model of the Williams/Rocksoft CRC and a cycle-level Processor machine (Crc) "
